@@ -60,7 +60,8 @@ CHECKS = {
         "status digits, reason, body over the full byte alphabet incl. CR LF CR LF and NUL) and the parsed tuple is proved equal to the "
         "parts for every value within the bounds; every first line of <=7/9 symbolic bytes that is not three whitespace-separated "
         "parts is proved to raise ValueError. Percent-decoding runs natively on 10 enumerated concrete queries (incl. non-ASCII decoded bytes; expected values from an independent decoder in the harness) (the solver proves only "
-        "that exactly the part after '?' reaches parse_qsl).",
+        "that exactly the part after '?' reaches parse_qsl)."
+        ' Header values may hold a lone CR or LF.',
         note="Trusted: z3; symx; origin-form model of urlsplit/urlparse (validated against urllib each run); decimal int(str) model; "
         "parse_qsl native on concrete input.",
         ref="§4 C16"),
@@ -97,7 +98,8 @@ CHECKS = {
         "with symbolic sizes and offsets, each step of the real XorEncodedFile is proved equal to the semantics of io.BytesIO(plaintext) "
         "(bytes returned, tell(), seek() return value). Detection: PE scaffolds behind stubs with marker and/or size field are located "
         "at the end of the stub for every nonce; every file of <=10/12 symbolic bytes is rejected with ValueError."
-        ' A stray ff ff ff in front of a true offset designated by marker and size field does not win.',
+        ' A stray ff ff ff in front of a true offset designated by marker and size field does not win.'
+        ' Plaintexts whose size field has non-zero upper bytes (seeks/reads inside the first 8 bytes).',
         note="Trusted: z3; symx; BytesIO and cstruct-reader models; validity predicate of the detection harness: the size relation and "
         "the marker designate a single candidate offset; pe.find_mz_offset is cut to None for files < 64 bytes, justified by lemma "
         "obligations discharged in the same run.",
@@ -111,7 +113,8 @@ CHECKS = {
         "(so results depending on earlier uses — through the object or through state shared between decoders — differ); families incl. "
         "duplicate setting indices and a BeaconGate vector; item assignment/deletion on "
         "the mappings raises TypeError. Object identity and aliasing are the real ones (the interpreter runs on real Python containers)."
-        ' A configuration with static Host headers and a client run with explicit overrides (host_header, sleeptime, jitter, user agent) is included.',
+        ' A configuration with static Host headers and a client run with explicit overrides (host_header, sleeptime, jitter, user agent) is included.'
+        ' A process-inject execute-list family is included.',
         note="Trusted: z3; symx; SHA-256/AES/HMAC uninterpreted; RSA key import real (concrete DER); random nondeterministic; "
         "lark Tree real / tokens with symbolic text. Longer histories follow by induction from state preservation (stated).",
         ref="§4 C14"),
@@ -150,7 +153,8 @@ CHECKS = {
         "over-long User-Agent, Guardrails markers at the start of short files with symbolic guard settings and patch sizes scaled to "
         "24/16 bytes, XorEncoded stages with a symbolic size field and truncations: on every path the call returns or raises ValueError, "
         "and no loop exceeds an unwinding bound derived from the input size (an exhausted bound is confirmed by a native replay under a "
-        "20 s wall-clock bound before it is reported).",
+        "20 s wall-clock bound before it is reported)."
+        " The PE artifact helpers are held to 'a result or None, no exception at all'.",
         note="Trusted: z3; symx; file models (BytesIO vs OS file on negative seeks); cstruct generated readers (concrete static structures "
         "parsed by the real cstruct); int(text) / UTF-8 decoding / urlsplit of out-of-model text and the n-gram key-candidate heuristic "
         "are contract stubs ('a value or ValueError' / an arbitrary candidate list). The pretty-printing views of a type-confused record "
@@ -164,7 +168,8 @@ CHECKS = {
         "the real 8192-byte buffer, a block at a symbolic offset at/around both buffer boundaries, offset 0/1 and end of file, keys "
         "69/00/a7(+2e), symbolic neighbour bytes and protocol value. H3: the block inside a PE section, raw and as XorEncoded stage (also: block key only "
         "reached by the all-keys retry; marker-less stub with a nonce containing ff ff ff), with architecture and compile stamp of the embedding image."
-        " Key mode 'caller keys a5 5a + all_xor_keys' on every 7-byte file.",
+        " Key mode 'caller keys a5 5a + all_xor_keys' on every 7-byte file."
+        ' H3 includes a XorEncoded stage followed by an un-encoded block.',
         note="Trusted: z3; symx; file models; cstruct readers; pe.find_mz_offset replaced by None for files < 64 bytes (lemma instances in the "
         "same check). In all-keys mode the order of the 253 left-over keys is implementation-defined (the result must be a true first "
         "candidate of its key; ValueError only if no key at all has one). Settings are compared with BeaconConfig(block), whose decoding "
@@ -234,7 +239,8 @@ CHECKS = {
         "and the three key-material variants; task data, callback data (0..3 symbolic bytes), callback ids symbolic. A fresh C2Http decodes "
         "the recorded messages (as objects, and through the raw wire form + parse_raw_http for one configuration / all in thorough) to "
         "exactly the metadata, task and callback packets sent, in order, and the client itself decodes the task it was sent."
-        ' Key material RSA key + only one of the two session keys decodes as well.',
+        ' Key material RSA key + only one of the two session keys decodes as well.'
+        ' A configuration with zero-length append/prepend arguments is included.',
         note="Trusted: z3; symx; AES-CBC/HMAC/SHA-256 uninterpreted with their contracts, PKCS#1 contract stub (C05/C06 decide the crypto "
         "framing itself); the peer encodes task data with the library's server-output transform (transform == reference encoding is C04's "
         "result); base64 decode-of-encode provenance shortcut (a theorem of the bit-level model, validated each run in C04); one fixed "
